@@ -63,18 +63,21 @@ def svdAccept (tol : Rat) (A : Mat) (ncols : Nat) (Ut : Mat) (S : List Rat) (Vt 
     let rec_ := ((List.range S.length).map (fun k => (Ut.getD k []).getD i 0 * S.getD k 0 * (Vt.getD k []).getD j 0)).foldl (· + ·) 0
     decide (absR ((A.getD i []).getD j 0 - rec_) ≤ tol * s0)))
 
-/-- one complex eigenpair `(λr + iλi, vr + i·vi)` of a real matrix:
-`|A vr − (λr vr − λi vi)|_i` and `|A vi − (λr vi + λi vr)|_i` at most `tol·(|A_i|·(|vr|+|vi|) + (|λr|+|λi|)(|vr_i|+|vi_i|))`, and
-`‖v‖² ≥ 1/4` (the vector is not degenerate) -/
+def absSum (v : List Rat) : Rat := (v.map absR).foldl (· + ·) 0
+def maxAbs (v : List Rat) : Rat := (v.map absR).foldl (fun a b => if a < b then b else a) 0
+
+/-- one complex eigenpair `(λr + iλi, vr + i·vi)` of a real matrix, normwise backward error (what a backward-stable
+eigensolver delivers): every component of `A vr − (λr vr − λi vi)` and of `A vi − (λr vi + λi vr)` is at most
+`tol·(‖A‖max·‖v‖₁ + |λ|·‖v‖∞)`, and `‖v‖² ≥ 1/4` (the vector is not degenerate) -/
 def eigPairAccept (tol : Rat) (A : Mat) (lr li : Rat) (vr vi : List Rat) : Bool :=
   let av := (List.zipWith (fun a b => absR a + absR b) vr vi)
   let lam := absR lr + absR li
-  let bound := fun (row : List Rat) (i : Nat) => tol * (absDot row av + lam * av.getD i 0)
+  let bound := tol * (maxAbs (A.map maxAbs) * absSum av + lam * maxAbs av)
   decide ((1 : Rat) / 4 ≤ dot vr vr + dot vi vi) &&
   ((List.range A.length).all (fun i =>
     let row := A.getD i []
-    decide (absR (dot row vr - (lr * vr.getD i 0 - li * vi.getD i 0)) ≤ bound row i) &&
-    decide (absR (dot row vi - (lr * vi.getD i 0 + li * vr.getD i 0)) ≤ bound row i)))
+    decide (absR (dot row vr - (lr * vr.getD i 0 - li * vi.getD i 0)) ≤ bound) &&
+    decide (absR (dot row vi - (lr * vi.getD i 0 + li * vr.getD i 0)) ≤ bound)))
 
 def sumR (v : List Rat) : Rat := v.foldl (· + ·) 0
 
@@ -97,9 +100,6 @@ def eigAccept (tol : Rat) (A : Mat) (lr li : List Rat) (Vr Vi : Mat) : Bool :=
   lr.length == A.length && li.length == A.length && Vr.length == A.length && Vi.length == A.length &&
   spectrumAccept tol A lr li &&
   (List.range A.length).all (fun k => eigPairAccept tol A (lr.getD k 0) (li.getD k 0) (Vr.getD k []) (Vi.getD k []))
-
-def absSum (v : List Rat) : Rat := (v.map absR).foldl (· + ·) 0
-def maxAbs (v : List Rat) : Rat := (v.map absR).foldl (fun a b => if a < b then b else a) 0
 
 /-- `A·X ≈ I` and `X·A ≈ I`, normwise per row/column:
 `|(AX − I)_ij| ≤ tol·(‖A_i‖₁·‖X_{·j}‖∞ + δ_ij)` and `|(XA − I)_ij| ≤ tol·(‖X_i‖∞·‖A_{·j}‖₁ + δ_ij)` -/
